@@ -90,6 +90,120 @@ static SYS: LockStep = LockStep { property: "C17", probes: true, seed: None };
 
 static SYS_MODES: LockStep = LockStep { property: "C17", probes: false, seed: None };
 
+/// Far positions: save and restore at rows / columns around every power-of-two and type
+/// boundary up to beyond 2^17, on screens that have them. Direct part (no reference
+/// terminal: the screens are too large to compare cell by cell): the restored position is
+/// the saved one and the next printed cell carries the saved pen.
+fn far_positions(ctx: &Ctx, rep: &mut Report) {
+    use rayon::prelude::*;
+    let sizes: Vec<(usize, usize)> = ctx.tier.pick(
+        vec![(3, 300), (300, 3), (3, 65600), (65600, 2), (2, 131100)],
+        vec![(3, 300), (300, 3), (3, 33000), (33000, 2), (3, 65600), (65600, 2), (2, 70000), (70000, 2), (2, 131100), (131100, 2)],
+    );
+    let marks: [usize; 22] = [0, 1, 126, 127, 128, 254, 255, 256, 257, 32766, 32767, 32768, 65533, 65534, 65535, 65536, 65537, 65553, 65599, 131070, 131071, 131072];
+    let pairs: [(&str, &str); 10] = [
+        ("\x1b7", "\x1b8"),
+        ("\x1b7", "\x1b[u"),
+        ("\x1b7", "\x1b[?1048l"),
+        ("\x1b[s", "\x1b8"),
+        ("\x1b[s", "\x1b[u"),
+        ("\x1b[s", "\x1b[?1048l"),
+        ("\x1b[?1048h", "\x1b8"),
+        ("\x1b[?1048h", "\x1b[u"),
+        ("\x1b[?1048h", "\x1b[?1048l"),
+        ("\x1b[?1049h", "\x1b[?1049l"),
+    ];
+    let mut cases: Vec<((usize, usize), (usize, usize), usize)> = vec![];
+    for &(cols, rows) in &sizes {
+        let mut rs: Vec<usize> = marks.iter().copied().filter(|&r| r < rows).collect();
+        rs.push(rows - 1);
+        let mut cs: Vec<usize> = marks.iter().copied().filter(|&c| c < cols).collect();
+        cs.push(cols - 1);
+        rs.sort();
+        rs.dedup();
+        cs.sort();
+        cs.dedup();
+        // rows vary on tall screens, columns on wide ones (the other coordinate: first and last)
+        for &r in &rs {
+            for &cc in &[0usize, cols - 1] {
+                for k in 0..pairs.len() {
+                    cases.push(((cols, rows), (cc, r), k));
+                }
+            }
+        }
+        for &cc in &cs {
+            for &r in &[0usize, rows - 1] {
+                for k in 0..pairs.len() {
+                    cases.push(((cols, rows), (cc, r), k));
+                }
+            }
+        }
+    }
+    cases.sort();
+    cases.dedup();
+    let goto = |col: usize, row: usize| -> String {
+        // CUP parameters are 16-bit: go as far as they reach, then move relatively
+        let (r1, c1) = (row.min(65000), col.min(65000));
+        let mut s = format!("\x1b[{};{}H", r1 + 1, c1 + 1);
+        let (mut dr, mut dc) = (row - r1, col - c1);
+        while dr > 0 {
+            let k = dr.min(60000);
+            s.push_str(&format!("\x1b[{}B", k));
+            dr -= k;
+        }
+        while dc > 0 {
+            let k = dc.min(60000);
+            s.push_str(&format!("\x1b[{}C", k));
+            dc -= k;
+        }
+        s
+    };
+    let bad: Vec<String> = cases
+        .par_iter()
+        .filter_map(|&((cols, rows), (col, row), k)| {
+            let (save, restore) = pairs[k];
+            let r = crate::engine::guarded(|| {
+                let mut vt = build_vt(cols, rows, Some(0));
+                let _ = vt.feed_str(&goto(col, row));
+                let c0 = vt.cursor();
+                if (c0.col, c0.row) != (col, row) {
+                    return None; // the position itself was not reached: C05's matter
+                }
+                let _ = vt.feed_str("\x1b[1;33m");
+                let _ = vt.feed_str(save);
+                let _ = vt.feed_str("\x1b[H\x1b[0;44mz\x1b[2;2H");
+                let _ = vt.feed_str(restore);
+                let c1 = vt.cursor();
+                if (c1.col, c1.row) != (col, row) {
+                    return Some(format!("restored to ({}, {})", c1.col, c1.row));
+                }
+                let _ = vt.feed_str("x");
+                let cell = &vt.view()[row].cells()[col];
+                let pen = cell.pen();
+                if cell.char() != 'x' || !pen.is_bold() || pen.foreground() != Some(avt::Color::Indexed(3)) || pen.background().is_some() {
+                    return Some(format!("the cell printed after the restore is {:?} with pen {:?}", cell.char(), pen));
+                }
+                None
+            });
+            match r {
+                Ok(None) => None,
+                Ok(Some(d)) => Some(format!("{}x{}: saved at (col {}, row {}) with {} and restored with {}: {}", cols, rows, col, row, esc(save), esc(restore), d)),
+                Err(p) => Some(format!("{}x{}: save at (col {}, row {}) {} {}: panic: {}", cols, rows, col, row, esc(save), esc(restore), p)),
+            }
+        })
+        .collect();
+    let n = cases.len() as u64;
+    rep.evaluations += n;
+    rep.traces_validated += n;
+    rep.transitions += n;
+    rep.parts.push(serde_json::json!({"part":"far-positions","sizes":sizes.iter().map(|s| format!("{}x{}", s.0, s.1)).collect::<Vec<_>>(),"cases":n,"violating":bad.len()}));
+    println!("part far-positions: {} (size, position, save / restore pair) cases, {} violating", n, bad.len());
+    if let Some(d) = bad.first() {
+        emit_violation(ctx, rep, "C17", serde_json::json!({"part":"far-positions","oracle":"restored-position-and-pen","observed":d}));
+        rep.violations += bad.len() as u64 - 1;
+    }
+}
+
 pub fn run(ctx: &Ctx) -> Report {
     let mut rep = Report::new();
     let p = parts!(ctx.tier, &SYS);
@@ -99,6 +213,7 @@ pub fn run(ctx: &Ctx) -> Report {
     }
     run_part(ctx, &mut rep, &super::sweep::mode_part(&SYS_MODES, ctx.tier));
     super::sweep::mode_number_sweep(ctx, &mut rep, &SYS_MODES);
+    far_positions(ctx, &mut rep);
     rep.rule = "lock-step BFS of (real Vt, reference terminal keeping one optional saved context per screen) over the four save and four restore spellings (7- and 8-bit), cursor placement incl. the wrap-pending column, pens, DECOM/DECAWM toggles, margins, 47/1047/1049 switches, DECSTR, resizes; after every transition the cursor, pen, origin and auto-wrap mode and BOTH saved contexts (hook) are compared; after a resize only 'inside the screen' is required of a restored position".into();
     rep.assumptions = vec!["R6: DECSTR and RIS discard the saved context of the showing screen / both screens".into()];
     rep
@@ -108,6 +223,12 @@ pub fn replay(ctx: &Ctx, v: &Value) -> bool {
     let tier = if v["tier"] == "thorough" { Tier::Thorough } else { Tier::Quick };
     if v["part"] == "save-restore-lockstep-3x3" {
         return replay_part(ctx, &shallow_part(Tier::Quick), v);
+    }
+    if v["part"] == "far-positions" {
+        let mut rep = Report::new();
+        let c2 = Ctx { id: ctx.id.clone(), tier, seed: 0, start: ctx.start, known: ctx.known.clone(), replay_dir: ctx.replay_dir.clone() };
+        far_positions(&c2, &mut rep);
+        return rep.violations > 0;
     }
     if v["part"] == "every-mode-number" {
         return super::sweep::mode_number_replay(ctx, &SYS_MODES);
